@@ -155,6 +155,8 @@ type run struct {
 	inRecv  map[string]bool // callers that passed "prerecv"
 	sawWire map[string]bool // senders whose frame was observed at "wire" (configuration wire=1)
 	nwire   int
+	nearly  int  // channel sends tried before the owner listened (doEarly)
+	aborted bool // a direct oracle failed in a way that leaves nothing to schedule
 	lock    string          // actor holding the send lock
 	reads   int             // top-level frames the receive loops have taken
 	base    int64
@@ -848,6 +850,73 @@ func (r *run) doStep(actor string) {
 		items = append(items, r.rxState())
 	}
 	r.record("step "+show+" "+clk, strings.Join(items, " "))
+}
+
+var probeTimeout = 40 * time.Millisecond
+
+// earlyOwner: the receive loop is parked right before a channel send (the hand-over of a result, "deliver", or of the
+// retry marker after bad_server_salt, "notify") and the owner of that channel has written its request but has not
+// returned from sendPacket yet (parked at "written"): it does not listen. Returns that owner, nil otherwise.
+func (r *run) earlyOwner() *callerState {
+	p := r.sc.Parked(r.rx)
+	if p == nil || (p.Point != "deliver" && p.Point != "notify") {
+		return nil
+	}
+	o := r.ownerOf(p.ID)
+	if o == nil || r.inRecv[o.name] {
+		return nil
+	}
+	if q := r.sc.Parked(o.name); q == nil || q.Point != "written" {
+		return nil
+	}
+	return o
+}
+
+// doEarly lets the receive loop walk into its send BEFORE the owner listens (Client/Rendezvous.v: the commit).
+// The channel is unbuffered and the owner its only reader: the loop has to wait there (no arrival within the probe
+// time-out) until the owner has returned from sendPacket and receives; then both go on as if the owner had been
+// first. Recorded as `commit rx` + the two actions of the canonical order (step owner, step rx). A loop that comes
+// back without the owner has handed the value to nobody.
+func (r *run) doEarly() {
+	o := r.earlyOwner()
+	p := r.sc.Parked(r.rx)
+	id, point := p.ID, p.Point
+	r.note(point + ":" + r.msgClass)
+	r.nearly++
+	r.sc.Release(r.rx)
+	if ar, ok := r.sc.TryAwait(r.rx, probeTimeout); ok {
+		text := fmt.Sprintf("the receive loop went on from its channel send (%s for request %s) to '%s' while caller %s had not returned from "+
+			"sendPacket (nobody was receiving on the response channel): the value is lost or went elsewhere", point, r.norm(id), ar.Point, o.name)
+		r.viol("C09", "live:handed-over-while-owner-not-listening:"+point, text)
+		r.viol("C11", "salt-rotation:handed-over-while-owner-not-listening:"+point, text)
+		r.viol("C16", "handed-over-while-owner-not-listening:"+point, text)
+		r.aborted = true
+		return
+	}
+	r.record("commit rx", "committed")
+	r.sc.Release(o.name)
+	a0 := r.await(o.name)
+	r.record("step "+o.name+" 0", strings.Join(r.onArrival(o.name, a0), " "))
+	var items []string
+	a1 := r.await(r.rx)
+	items = append(items, r.onArrival(r.rx, a1)...)
+	var waiting []string
+	for _, c := range r.callers {
+		if r.inRecv[c.name] {
+			waiting = append(waiting, c.name)
+		}
+	}
+	a2, err := r.sc.AwaitAny(waiting, watchdog)
+	if err != nil {
+		st := ""
+		if e, ok := err.(*csched.ErrStuck); ok {
+			st = e.Stack
+		}
+		panic(stuck{what: "receiver-of-" + r.rx, stack: st})
+	}
+	items = append(items, r.onArrival(a2.Actor, a2)...)
+	items = append(items, r.rxState())
+	r.record("step rx 0", strings.Join(items, " "))
 }
 
 // plainSeen: plain (unencrypted) frames the servers have seen since the set-up.
